@@ -10,6 +10,8 @@ def main():
         from sim import selftest
         return selftest.main(sys.argv[2:])
     from sim import core
+    if what == "exec-plan":
+        return core.exec_plan_main(sys.argv[2:])
     try:
         return core.main_check(what, sys.argv[2:])
     except core.HarnessError as e:
